@@ -36,6 +36,8 @@
 (*                                   the enclosing model graph / function)                          *)
 (*   function_nested_import_missing  the replacement's domains are imported into the body and the   *)
 (*                                   model graph, not into the enclosing function                   *)
+(*   subgraph_name_clash             NameFixPass forgets the names of a body when it leaves it: a   *)
+(*                                   later outer value keeps a name the body uses (ORT: not SSA)     *)
 (*   var_binds_removed_intermediate  a pattern variable bound to an output of a matched node that    *)
 (*                                   the match removes: Splice raises half way (design: no match)   *)
 EXTENDS Integers, Sequences, FiniteSets, TLC, Json
@@ -49,7 +51,7 @@ VARIABLES phase, cfg, m, bs, eng, h
 vars == <<phase, cfg, m, bs, eng, h>>
 
 AllDevs == {"init_clash_overwrite", "multi_output_insertion_point", "as_function_nested_opsets",
-            "var_binds_removed_intermediate", "function_nested_import_missing"}
+            "var_binds_removed_intermediate", "function_nested_import_missing", "subgraph_name_clash"}
 
 NC == -999                      \* "no constant value" / undefined
 A == 1  B == 2  C == 3          \* main graph inputs a, b (scalars), c (BOOL as 0/1)
@@ -146,16 +148,15 @@ ToG(mm, g, byid) ==
                 [ins |-> [i \in 1..Len(n.ins) |-> NameOf(mm, n.ins[i], byid)], outs |-> <<NameOf(mm, n.out, byid)>>,
                  subs |-> [j \in 1..Len(n.subs) |-> ToG(mm, n.subs[j], byid)], dom |-> n.dom]],
    outputs |-> [i \in 1..Len(gr.outs) |-> NameOf(mm, gr.outs[i], byid)]]
-\* names unique along every scope chain (what the ONNX checker and runtimes require; sibling bodies may reuse a name)
-RECURSIVE ScopedSSA(_, _), NodesSSA(_, _, _)
-NodesSSA(nodes, k, vis) ==
-  k > Len(nodes)
-  \/ (/\ \A j \in 1..Len(nodes[k].subs) : ScopedSSA(nodes[k].subs[j], vis)
-      /\ nodes[k].outs[1] \notin vis
-      /\ NodesSSA(nodes, k + 1, vis \cup {nodes[k].outs[1]}))
-ScopedSSA(gg, vis) == /\ G!NoDup(gg.inputs \o gg.inits)
-                      /\ G!SeqSet(gg.inputs \o gg.inits) \cap vis = {}
-                      /\ NodesSSA(gg.nodes, 1, vis \cup G!SeqSet(gg.inputs \o gg.inits))
+\* names: unique within a graph and distinct from every name of the graphs it is nested in (sibling bodies may reuse a
+\* name).  The ONNX checker only looks at the names defined BEFORE the enclosing node; ONNX Runtime also rejects a body
+\* name that an outer graph defines later ("graph must be in SSA form") when the body captures outer node outputs.
+RECURSIVE ScopedSSA(_, _)
+OwnNames(gg) == gg.inputs \o gg.inits \o [k \in 1..Len(gg.nodes) |-> gg.nodes[k].outs[1]]
+ScopedSSA(gg, outer) == /\ G!NoDup(OwnNames(gg))
+                        /\ G!SeqSet(OwnNames(gg)) \cap outer = {}
+                        /\ \A k \in 1..Len(gg.nodes) : \A j \in 1..Len(gg.nodes[k].subs) :
+                              ScopedSSA(gg.nodes[k].subs[j], outer \cup G!SeqSet(OwnNames(gg)))
 \* every called function exists
 CallsOK(mm) == \A n \in LiveNodes(mm) : mm.nodes[n].dom # "" => FuncGraph(mm, mm.nodes[n]) # 0
 \* structure only (values by identity): def-before-use in every graph, scoping, outputs produced in their graph
@@ -410,25 +411,29 @@ NFValue(st, v) ==
             [st EXCEPT !.names[v] = nn, !.used = @ \cup {nn}, !.seen = @ \cup {v}, !.ctr = @ \cup {<<nm, c>>}]
 RECURSIVE NFValues(_, _, _)
 NFValues(st, vs, k) == IF k > Len(vs) THEN st ELSE NFValues(NFValue(st, vs[k]), vs, k + 1)
-RECURSIVE NFGraph(_, _, _), NFNodes(_, _, _, _), NFSubs(_, _, _, _)
-NFSubs(mm, st, subs, k) ==          \* a body starts from a COPY of the names used so far; its own names are forgotten on exit
+RECURSIVE NFGraph(_, _, _, _), NFNodes(_, _, _, _, _), NFSubs(_, _, _, _, _)
+\* a body starts from a COPY of the names used so far.  The code forgets the body's own names on exit, so a value the
+\* enclosing graph defines LATER may keep a name that a body already uses (deviation subgraph_name_clash, the same
+\* mechanism as C10's); the design keeps them reserved.  Sibling bodies are kept apart by the shared counters only.
+NFSubs(mm, st, subs, k, devs) ==
   IF k > Len(subs) THEN st
-  ELSE LET inner == NFGraph(mm, st, subs[k]) IN NFSubs(mm, [inner EXCEPT !.used = st.used], subs, k + 1)
-NFNodes(mm, st, ord, k) ==
+  ELSE LET inner == NFGraph(mm, st, subs[k], devs) IN
+       NFSubs(mm, IF "subgraph_name_clash" \in devs THEN [inner EXCEPT !.used = st.used] ELSE inner, subs, k + 1, devs)
+NFNodes(mm, st, ord, k, devs) ==
   IF k > Len(ord) THEN st
   ELSE LET n == mm.nodes[ord[k]]
            s1 == NFValue(NFValues(st, n.ins, 1), n.out)
-       IN NFNodes(mm, NFSubs(mm, s1, n.subs, 1), ord, k + 1)
-NFGraph(mm, st, g) ==
+       IN NFNodes(mm, NFSubs(mm, s1, n.subs, 1, devs), ord, k + 1, devs)
+NFGraph(mm, st, g, devs) ==
   LET gr == mm.graphs[g]
       s1 == NFValues(st, gr.ins \o gr.outs \o (IF gr.kind = "func" THEN <<>> ELSE gr.inits), 1)
-  IN NFNodes(mm, s1, gr.order, 1)
-RECURSIVE NameFixRoots(_, _, _)
-NameFixRoots(mm, names, k) ==
+  IN NFNodes(mm, s1, gr.order, 1, devs)
+RECURSIVE NameFixRoots(_, _, _, _)
+NameFixRoots(mm, names, k, devs) ==
   IF k > Len(Roots(mm)) THEN names
-  ELSE NameFixRoots(mm, NFGraph(mm, [names |-> names, used |-> {}, seen |-> {}, ctr |-> {}], Roots(mm)[k]).names, k + 1)
-NameFix(mm) == LET names == NameFixRoots(mm, [v \in 1..Len(mm.vals) |-> mm.vals[v].name], 1) IN
-               [mm EXCEPT !.vals = [v \in 1..Len(@) |-> [@[v] EXCEPT !.name = names[v]]]]
+  ELSE NameFixRoots(mm, NFGraph(mm, [names |-> names, used |-> {}, seen |-> {}, ctr |-> {}], Roots(mm)[k], devs).names, k + 1, devs)
+NameFix(mm, devs) == LET names == NameFixRoots(mm, [v \in 1..Len(mm.vals) |-> mm.vals[v].name], 1, devs) IN
+                     [mm EXCEPT !.vals = [v \in 1..Len(@) |-> [@[v] EXCEPT !.name = names[v]]]]
 
 -----------------------------------------------------------------------------
 (* 1. derivation of the host model *)
@@ -457,6 +462,7 @@ Unary == {"Neg", "Relu", "Identity", "Mul1", "Mul1c", "Mul3", "I_negneg"}
 ArgChoices(op) ==
   IF op \in Unary THEN {<<x>> : x \in CandsU}
   ELSE IF op \in {"I_fn", "I_fnc"} THEN {<<x, y>> : x \in Primary \cup {IA}, y \in {IB} \cup LastOuts(m, Top.g, 1) \cup (Cands \ {IA, IB})}
+  ELSE IF op = "SubP" THEN {<<x, y>> : x \in Primary, y \in Cands \ Primary}           \* Sub(latest value, other)
   ELSE IF op \in {"I_pair", "I_pairr", "I_pairc"} THEN {<<x, y>> \in (Primary \cup {IA}) \X ({IB} \cup Primary) : x # y}
   ELSE IF Wide THEN {<<x, y>> : x \in Cands, y \in Cands}
   ELSE {<<x, y>> : x \in Primary, y \in Cands} \cup {<<x, y>> : x \in Cands, y \in Primary} \cup {<<IA, IB>>, <<IB, IA>>, <<IA, IA>>}
@@ -464,6 +470,7 @@ Steps(op, a, v1) ==          \* v1: the id the first new value will get
   CASE op = "Mul1" -> << <<"Mul", <<a[1], ONE>>>> >>
     [] op = "Mul1c" -> << <<"Mul", <<ONE, a[1]>>>> >>
     [] op = "Mul3" -> << <<"Mul", <<a[1], OLD>>>> >>
+    [] op = "SubP" -> << <<"Sub", a>> >>
     [] op = "I_negneg" -> << <<"Neg", <<a[1]>>>>, <<"Neg", <<v1>>>> >>
     [] op = "I_fn" -> << <<"Neg", <<a[1]>>>>, <<"Add", <<v1, a[2]>>>> >>
     [] op = "I_fnc" -> << <<"Neg", <<a[1]>>>>, <<"Add", <<a[2], v1>>>> >>
@@ -681,15 +688,19 @@ KeepsNodes == \E i \in 1..Len(cfg.rules) : ~Removes(cfg.rules[i])
 PostPasses ==     \* remove_unused_nodes when some rule keeps its nodes; NameFixPass when anything was rewritten
   /\ phase = "post"
   /\ LET m1 == IF KeepsNodes THEN DCE(m) ELSE m
-         m2 == IF eng.count > 0 THEN NameFix(m1) ELSE m1
-     IN m' = m2 /\ h' = [h EXCEPT !.after = m2]         \* what apply_to_model() leaves behind
+         m2 == IF eng.count > 0 THEN NameFix(m1, Devs) ELSE m1
+         md == IF eng.count > 0 THEN NameFix(m1, {}) ELSE m1
+     IN /\ m' = m2
+        /\ h' = [h EXCEPT !.after = m2,                  \* what apply_to_model() leaves behind
+                          !.alt = md, !.why = IF m2 # md THEN @ \cup {"subgraph_name_clash"} ELSE @]
   /\ phase' = "cleanup"
   /\ UNCHANGED <<cfg, bs, eng>>
 Cleanup ==        \* rewrite(): RemoveUnusedNodesPass, RemoveUnusedFunctionsPass, RemoveUnusedOpsetsPass
   /\ phase = "cleanup"
   /\ m' = RemoveUnusedOpsets(RemoveUnusedFunctions(DCE(m)))
+  /\ h' = [h EXCEPT !.alt = RemoveUnusedOpsets(RemoveUnusedFunctions(DCE(@)))]
   /\ phase' = "done"
-  /\ UNCHANGED <<cfg, bs, eng, h>>
+  /\ UNCHANGED <<cfg, bs, eng>>
 
 -----------------------------------------------------------------------------
 InitModel(rs) ==
@@ -708,7 +719,7 @@ Init == /\ phase = "build"
         /\ bs = [st |-> <<[g |-> IF cfg.wrap THEN 2 ELSE 1, kind |-> "root", node |-> 0]>>, np |-> 0]
         /\ eng = [st |-> <<>>, fq |-> <<>>, count |-> 0, pend |-> NoPend, dirty |-> FALSE, devs |-> Deviations]
         /\ h = [root |-> IF cfg.wrap THEN 2 ELSE 1, ia |-> IF cfg.wrap THEN 9 ELSE A, ib |-> IF cfg.wrap THEN 10 ELSE B, ic |-> IF cfg.wrap THEN 11 ELSE C,
-                orig |-> InitModel(cfg), after |-> InitModel(cfg), ref |-> <<>>, any |-> FALSE, why |-> {}, apps |-> <<>>, raised |-> FALSE]
+                orig |-> InitModel(cfg), after |-> InitModel(cfg), alt |-> InitModel(cfg), ref |-> <<>>, any |-> FALSE, why |-> {}, apps |-> <<>>, raised |-> FALSE]
 Next == \/ (phase = "build" /\ \E op \in cfg.ops : \E args \in ArgChoices(op) : AddNode(op, args))
         \/ OpenIf \/ NextBranch \/ CloseIf
         \/ (phase = "build" /\ \E v0 \in LastOuts(m, Top.g, 1) \cup {IA} : OpenLoop(v0))
@@ -725,41 +736,45 @@ RECURSIVE Chase(_, _)
 Chase(v, k) == IF k > Len(h.apps) THEN v
                ELSE LET a == h.apps[k] IN
                     Chase(IF \E i \in 1..Len(a.olds) : a.olds[i] = v THEN a.news[Min({i \in 1..Len(a.olds) : a.olds[i] = v})] ELSE v, k + 1)
-SigOK == /\ m.graphs[1].ins = h.orig.graphs[1].ins
-         /\ [i \in 1..Len(m.graphs[1].ins) |-> m.vals[m.graphs[1].ins[i]].name] = [i \in 1..Len(m.graphs[1].ins) |-> h.orig.vals[m.graphs[1].ins[i]].name]
-         /\ [i \in 1..Len(m.graphs[1].outs) |-> m.vals[m.graphs[1].outs[i]].name] = [i \in 1..Len(h.orig.graphs[1].outs) |-> h.orig.vals[h.orig.graphs[1].outs[i]].name]
+SigOK(mm) == /\ mm.graphs[1].ins = h.orig.graphs[1].ins
+         /\ [i \in 1..Len(mm.graphs[1].ins) |-> mm.vals[mm.graphs[1].ins[i]].name] = [i \in 1..Len(mm.graphs[1].ins) |-> h.orig.vals[mm.graphs[1].ins[i]].name]
+         /\ [i \in 1..Len(mm.graphs[1].outs) |-> mm.vals[mm.graphs[1].outs[i]].name] = [i \in 1..Len(h.orig.graphs[1].outs) |-> h.orig.vals[h.orig.graphs[1].outs[i]].name]
 \* exactly the matched nodes are gone; every other node is where it was, reads what it read (modulo the
 \* redirected outputs) and keeps its metadata; original initializers keep name and value
-FrameOK ==
+FrameOK(mm) ==
   /\ \A n \in 1..Len(h.orig.nodes) :
        n \in Matched
-       \/ (/\ InOrder(m, n) /\ m.nodes[n].g = h.orig.nodes[n].g
-           /\ m.nodes[n].op = h.orig.nodes[n].op /\ m.nodes[n].src = h.orig.nodes[n].src /\ m.nodes[n].rule = ""
-           /\ m.nodes[n].ins = [i \in 1..Len(h.orig.nodes[n].ins) |-> Chase(h.orig.nodes[n].ins[i], 1)])
-       \/ (Uses(m, m.nodes[n].out) = {} /\ ~InOrder(m, n))               \* dead code goes with the clean-up passes
-  /\ \A n \in Matched : \/ ~InOrder(m, n)
+       \/ (/\ InOrder(mm, n) /\ mm.nodes[n].g = h.orig.nodes[n].g
+           /\ mm.nodes[n].op = h.orig.nodes[n].op /\ mm.nodes[n].src = h.orig.nodes[n].src /\ mm.nodes[n].rule = ""
+           /\ mm.nodes[n].ins = [i \in 1..Len(h.orig.nodes[n].ins) |-> Chase(h.orig.nodes[n].ins[i], 1)])
+       \/ (Uses(mm, mm.nodes[n].out) = {} /\ ~InOrder(mm, n))               \* dead code goes with the clean-up passes
+  /\ \A n \in Matched : \/ ~InOrder(mm, n)
                         \/ \E i \in 1..Len(h.apps) : n \in SeqSet(h.apps[i].nodes) /\ ~Removes(h.apps[i].rule)
   /\ \A v \in SeqSet(h.orig.graphs[1].inits) :
-       \/ (v \in SeqSet(m.graphs[1].inits) /\ m.vals[v].name = h.orig.vals[v].name)
-       \/ Uses(m, v) = {}
+       \/ (v \in SeqSet(mm.graphs[1].inits) /\ mm.vals[v].name = h.orig.vals[v].name)
+       \/ Uses(mm, v) = {}
   \* the relative order of the surviving original nodes of every graph is unchanged
   /\ \A g \in 1..Len(h.orig.graphs) :
-       SelectSeq(m.graphs[g].order, LAMBDA n : n <= Len(h.orig.nodes)) = SelectSeq(h.orig.graphs[g].order, LAMBDA n : InOrder(m, n))
+       SelectSeq(mm.graphs[g].order, LAMBDA n : n <= Len(h.orig.nodes)) = SelectSeq(h.orig.graphs[g].order, LAMBDA n : InOrder(mm, n))
 \* every step of the engine leaves a well-formed graph that computes the same function
 StepWF == (phase = "engine" /\ eng.dirty) \/ phase = "cleanup" => WFids(m)      \* after every Splice, after the post passes
 StepEval == phase = "engine" /\ eng.dirty => EvalModel(m) = h.ref
 Terminates == eng.count < MAXCOUNT
-DoneOK == /\ ~h.raised
-          /\ WFids(m) /\ WFnames(m)
-          /\ EvalModel(m) = h.ref
-          /\ SigOK /\ FrameOK
-          /\ (h.any => eng.count >= 1)
+DoneOKm(mm) == /\ ~h.raised
+               /\ WFids(mm) /\ WFnames(mm)
+               /\ EvalModel(mm) = h.ref
+               /\ SigOK(mm) /\ FrameOK(mm)
+               /\ (h.any => eng.count >= 1)
+DoneOK == DoneOKm(m)
 Holds == /\ StepWF /\ StepEval /\ Terminates
          /\ (phase = "done" => DoneOK)
 \* design run (Deviations = {}): the property
 PropertyHolds == eng.devs = {} => Holds
 \* implementation-model run: everything a deviation does not explain still satisfies the property
 DeviationsExplain == eng.devs # {} /\ h.why = {} => Holds
+\* the NameFix deviation acts in a single step: there the design variant (h.alt) is computed next to the implementation
+\* variant from the same state, and judged here
+DesignNames == phase = "done" /\ ~h.raised /\ h.why \subseteq {"subgraph_name_clash"} => DoneOKm(h.alt)
 
 \* vacuity witnesses (each must be VIOLATED)
 NeverRewrites == eng.count = 0
@@ -783,7 +798,7 @@ GJ(mm, g) ==
 MJ(mm) == [graph |-> GJ(mm, 1), imports |-> mm.graphs[1].imports,
            funcs |-> [i \in 1..Len(mm.funcs) |-> [fid |-> mm.graphs[mm.funcs[i]].fid, imports |-> mm.graphs[mm.funcs[i]].imports, graph |-> GJ(mm, mm.funcs[i])]]]
 SortedWhy == IF h.why = {} THEN <<>> ELSE LET S == h.why IN
-             SelectSeq(<<"as_function_nested_opsets", "function_nested_import_missing", "init_clash_overwrite", "multi_output_insertion_point", "var_binds_removed_intermediate">>, LAMBDA d : d \in S)
+             SelectSeq(<<"as_function_nested_opsets", "function_nested_import_missing", "init_clash_overwrite", "multi_output_insertion_point", "var_binds_removed_intermediate", "subgraph_name_clash">>, LAMBDA d : d \in S)
 Emit == phase = "done" /\ eng.devs = Deviations =>
   PrintT(<<"CASE", ToJson([rules |-> cfg.rules, commute |-> cfg.commute, wrap |-> cfg.wrap,
                            orig |-> MJ(h.orig), after |-> MJ(h.after), final |-> MJ(m), count |-> eng.count, raised |-> h.raised,
@@ -807,7 +822,8 @@ Q_keep     == {RS(<<"keep">>,              {"Neg"},                            X
 Q_relurelu == {RS(<<"relurelu">>,          {"Relu"},                           X, 4, 1, T, X, X, X, X, X)}
 Q_mul1     == {RS(<<"mul1">>,              {"Mul1", "Mul1c", "Neg"},           c, 3, 1, T, X, X, X, X, X) : c \in BOOLEAN}
 Q_subneg   == {RS(<<"subneg">>,            {"Sub"},                            X, 2, 1, T, T, X, X, w, X) : w \in BOOLEAN}
-              \cup {RS(<<"subneg">>,       {"Sub", "Relu"},                    X, 3, 1, T, X, T, X, X, X)}
+              \cup {RS(<<"subneg">>,       {"Sub", "Relu"},                    X, 3, 1, T, X, T, X, X, X),
+                    RS(<<"subneg">>,       {"SubP", "Relu"},                   X, 3, 1, X, T, X, X, X, X)}
 Q_addsum   == {RS(<<"addsum">>,            {"Add"},                            c, 2, 1, T, X, X, X, X, X) : c \in BOOLEAN}
 Q_chain    == {RS(rs,                      {"Sub", "Add"},                     X, 2, 1, T, X, X, X, X, X) : rs \in {<<"subneg", "addsum">>, <<"addsum", "subneg">>}}
               \cup {RS(<<"subneg", "negneg">>, {"Sub", "Neg"},                 X, 2, 1, T, X, X, X, X, X)}
@@ -846,6 +862,7 @@ T_pair     == {RS(<<"pair">>,              {"I_pair", "I_pairr", "I_pairc", "Rel
 ThoroughSets == T_negneg \cup T_keep \cup T_relurelu \cup T_mul1 \cup T_subneg \cup T_chain \cup T_dbl \cup T_fn \cup T_pair
 VacuitySets == {RS(<<"subneg">>, {"Sub"}, X, 2, 1, T, X, X, X, X, X), RS(<<"dbl">>, {"Add"}, X, 2, 1, X, X, X, X, X, X),
                 RS(<<"relurelu">>, {"Relu"}, X, 3, 1, X, X, X, X, X, X), RS(<<"pair">>, {"I_pairc"}, X, 1, 1, X, X, X, X, X, X)}
+\* sizing aid: `CONSTRAINT BuildOnly` + `INVARIANT CountHost` enumerates the hosts of a rule set without running the engine
 BuildOnly == phase = "build"
 CountHost == phase = "begin" => PrintT(<<"HOST", cfg.n>>)
 NoDevs == {}
